@@ -532,6 +532,15 @@ func (c *Ctx) evalBinary(x *ast.BinaryExpr, s *State) Value {
 	lt_ := c.typeOf(x.X)
 	switch x.Op {
 	case token.EQL, token.NEQ:
+		rt_ := c.typeOf(x.Y)
+		_, lIface := lt_.Underlying().(*types.Interface)
+		_, rIface := rt_.Underlying().(*types.Interface)
+		if lIface && !rIface {
+			rv = c.convertTo(s, rv, rt_, lt_, x.Y)
+		} else if rIface && !lIface {
+			lv = c.convertTo(s, lv, lt_, rt_, x.X)
+			lt_ = rt_
+		}
 		r := c.valuesEqual(lv, rv, lt_)
 		if x.Op == token.NEQ {
 			r = not(r)
@@ -1289,11 +1298,14 @@ func (c *Ctx) toInterface(s *State, v Value, from types.Type) Value {
 		s.assume(implies(not(eq(ref, "0")), eq(c.typeOfTerm(ref), c.typeID(from))))
 		return IntV{ref}
 	}
-	// value types: box
-	ref := c.fresh("ifc", sInt)
+	// value types: the interface value is a function of the dynamic type and the value (equal values of a comparable
+	// type give equal interface values)
+	ts := flatten(v, from)
+	bf := sanitize("ifacebox." + typeKey(from))
+	c.declareFun(bf, len(ts), sInt)
+	ref := app(bf, ts...)
 	s.assume(lt("0", ref))
 	s.assume(eq(c.typeOfTerm(ref), c.typeID(from)))
-	ts := flatten(v, from)
 	for i, l := range leaves(from) {
 		fn := sanitize("ifaceval." + typeKey(from) + l)
 		c.declareFun(fn, 1, sInt)
